@@ -1,10 +1,13 @@
-"""C19 / C16 — heap correspondence: NumPy vector arrays (views, copies, pickles, writes through aliases) against the Lean heap model.
+"""C19 / C16 — heap correspondence: NumPy vector arrays (views, copies, pickles, reshapes, transposes, writes through aliases,
+in-place arithmetic) against the Lean heap model.
 
-Seeded random HISTORIES over 2-4 Python variables holding real `VectorNumpy*D` / `MomentumNumpy*D` arrays are executed on the real
-library; the same histories go, one operation per line, through the Lean driver `Driver/Heap.lean` (model `Glue/Heap.lean`).  After
-EVERY operation the whole real state — for each live variable its class, `dtype.names`, the raw records, the column under every
-name index that works, and which pairs of variables share memory — is rendered in the driver's canonical dump format and compared
-line by line with the model's answer (as is the operation's own answer: `ok`, the column, the element, or the exception class).
+Seeded random HISTORIES over 2-4 Python variables holding real `VectorNumpy*D` / `MomentumNumpy*D` arrays — shapes up to 3-d
+(with length-one axes, 0-d views), dtypes whose fields come in ANY order with 0-2 extra (non-coordinate) fields — are executed
+on the real library; the same histories go, one operation per line, through the Lean driver `Driver/Heap.lean` (model
+`Glue/Heap.lean`).  After EVERY operation the whole real state — for each live variable its class, `dtype.names` IN ORDER, its
+shape, the raw records (C order), the column under every name index that works, and which pairs of variables share memory — is
+rendered in the driver's canonical dump format and compared line by line with the model's answer (as is the operation's own
+answer: `ok`, the column, the element, the class and shape of an unbound array result, or the exception class).
 
     cd /verif && /venv/bin/python -c "from harness import heap
     class X: seed=1; tier='quick'
@@ -13,6 +16,7 @@ line by line with the model's answer (as is the operation's own answer: `ok`, th
 from __future__ import annotations
 
 import copy
+import os
 import pickle
 
 import numpy
@@ -24,44 +28,60 @@ PROPERTY = "C19"
 LEAN_TARGETS = ["VectorModel.Glue.Heap", "VectorModel.Props.C19Heap"]
 THEOREM_FILES = ["VectorModel/Props/C19Heap.lean"]
 NEEDS_TRANSLATOR = False
-NOT_COVERED = ["in-place arithmetic (v *= k), n-dimensional shapes, reshape / transpose, non-float dtypes, extra (non-coordinate) fields"]
+NOT_COVERED = ["non-float dtypes, boolean / integer-array indices on n-d arrays, general axis permutations (only .T), reshape with -1 / order='F', "
+               "in-place arithmetic on non-Cartesian systems or with broadcasting, dtypes with two coordinate systems at once"]
 
 VARS = ["a", "b", "c", "d"]
 # spellings tried under every name index, per generic field, in the model's dump order
 SPELL = {"x": ["x", "px"], "y": ["y", "py"], "rho": ["rho", "pt"], "phi": ["phi"], "z": ["z", "pz"], "theta": ["theta"], "eta": ["eta"],
          "t": ["t", "E", "e", "energy"], "tau": ["tau", "M", "m", "mass"]}
 ALLNAMES = [n for f in SPELL for n in SPELL[f]]
-KINDS = ["new", "slice", "mask", "fancy", "view", "copy", "deepcopy", "pickle", "int", "get", "set", "setslice", "setelems", "del"]
-WEIGHTS = {"new": 1, "slice": 6, "mask": 2, "fancy": 2, "view": 4, "copy": 2, "deepcopy": 1, "pickle": 2, "int": 2, "get": 3, "set": 8,
-           "setslice": 4, "setelems": 6, "del": 1}
+EXTRAS = ["w", "q"]
+KINDS = ["new", "slice", "mask", "fancy", "view", "copy", "deepcopy", "pickle", "reshape", "transpose", "sub", "int", "get", "set",
+         "setslice", "setelems", "imul", "iadd", "isub", "del"]
+WEIGHTS = {"new": 1, "slice": 6, "mask": 2, "fancy": 2, "view": 3, "copy": 2, "deepcopy": 2, "pickle": 2, "reshape": 6, "transpose": 4,
+           "sub": 4, "int": 3, "get": 2, "set": 7, "setslice": 3, "setelems": 5, "imul": 4, "iadd": 2, "isub": 2, "del": 1}
+CART = {"x", "y", "z", "t"}
 
 
 # ------------------------------------------------------------------------------------------------ rendering
 def num(x):
     x = float(x)
-    return str(int(x)) if x == int(x) and not (x == 0 and str(x).startswith("-")) else repr(x)
+    return str(int(x)) if x == int(x) else repr(x)          # (-0.0, which arises from 0 * negative, is the model's 0)
 
 
 def opt(x):
     return "_" if x is None else str(x)
 
 
+def shp(shape):
+    return "x".join(str(d) for d in shape) or "-"
+
+
+def tup(idxs):
+    return ",".join(str(i) for i in idxs) or "-"
+
+
 def line_of(op):
     """the driver line of an abstract operation"""
     k = op[0]
     if k == "new":
-        _, v, fl, sig, rows = op
-        return f"new {v} {fl} {','.join(C.signames(sig))} {len(rows)} " + " ".join(str(x) for r in rows for x in r)
+        _, v, fl, fields, shape, rows = op
+        return f"new {v} {fl} {','.join(fields)} {shp(shape)} " + " ".join(str(x) for r in rows for x in r)
     if k == "slice":
         return f"slice {op[1]} {op[2]} {opt(op[3])} {opt(op[4])} {opt(op[5])}"
     if k == "mask":
         return f"mask {op[1]} {op[2]} " + ("".join("1" if b else "0" for b in op[3]) or "-")
     if k == "fancy":
         return f"fancy {op[1]} {op[2]} " + (",".join(str(i) for i in op[3]) or "-")
-    if k in ("view", "copy", "deepcopy", "pickle"):
+    if k in ("view", "copy", "deepcopy", "pickle", "transpose", "iadd", "isub"):
         return f"{k} {op[1]} {op[2]}"
+    if k == "reshape":
+        return f"reshape {op[1]} {op[2]} {shp(op[3])}"
+    if k == "sub":
+        return f"sub {op[1]} {op[2]} {tup(op[3])} {1 if op[4] else 0}"
     if k == "int":
-        return f"int {op[1]} {op[2]}"
+        return f"int {op[1]} {tup(op[2])}"
     if k == "get":
         return f"get {op[1]} {op[2]}"
     if k == "set":
@@ -70,9 +90,16 @@ def line_of(op):
         return f"setslice {op[1]} {op[2]} {op[3]} {op[4]}"
     if k == "setelems":
         return f"setelems {op[1]} {opt(op[2])} {opt(op[3])} {op[4]} {opt(op[5])} {opt(op[6])}"
+    if k == "imul":
+        return f"imul {op[1]} {op[2]}"
     if k == "del":
         return f"del {op[1]}"
     raise ValueError(k)
+
+
+def real_names(fl, fields):
+    """dtype names handed to `vector.array`: momentum spellings of the coordinates for the momentum flavor"""
+    return [C.MOMNAME.get(f, f) if fl == "m" else f for f in fields]
 
 
 def python_of(op):
@@ -80,7 +107,9 @@ def python_of(op):
     k = op[0]
     sl = lambda a, b, c=None: f"{'' if a is None else a}:{'' if b is None else b}" + ("" if c is None else f":{c}")  # noqa: E731
     if k == "new":
-        return f"{op[1]} = vector.array({{{', '.join(repr(n) + ': ' + str([float(r[j]) for r in op[4]]) for j, n in enumerate(C.field_names(op[2], op[3])))}}})"
+        _, v, fl, fields, shape, rows = op
+        return (f"{v} = vector.array({[tuple(float(x) for x in r) for r in rows]}, dtype={[(n, 'f8') for n in real_names(fl, fields)]})"
+                + ("" if len(shape) == 1 else f".reshape({tuple(shape)})"))
     if k == "slice":
         return f"{op[2]} = {op[1]}[{sl(op[3], op[4], op[5])}]"
     if k == "mask":
@@ -95,16 +124,28 @@ def python_of(op):
         return f"{op[2]} = copy.deepcopy({op[1]})"
     if k == "pickle":
         return f"{op[2]} = pickle.loads(pickle.dumps({op[1]}))"
+    if k == "reshape":
+        return f"{op[2]} = {op[1]}.reshape({tuple(op[3])})"
+    if k == "transpose":
+        return f"{op[2]} = {op[1]}.T"
+    if k == "sub":
+        return f"{op[2]} = {op[1]}[{', '.join([str(i) for i in op[3]] + (['...'] if op[4] else []))}]"
     if k == "int":
-        return f"{op[1]}[{op[2]}]"
+        return f"{op[1]}[{', '.join(str(i) for i in op[2]) or '()'}]"
     if k == "get":
         return f"{op[1]}[{op[2]!r}]"
     if k == "set":
-        return f"{op[1]}[{op[2]!r}] = {[float(x) for x in op[3]]}"
+        return f"{op[1]}[{op[2]!r}] = numpy.array({[float(x) for x in op[3]]})" + ("" if len(op[3]) == 1 else f".reshape({op[1]}.shape)")
     if k == "setslice":
         return f"{op[1]}[{op[2]}:{op[3]}] = {op[1]}[{op[4]}:{op[4] + (op[3] - op[2])}]"
     if k == "setelems":
         return f"{op[1]}[{sl(op[2], op[3])}] = {op[4]}[{sl(op[5], op[6])}]"
+    if k == "imul":
+        return f"{op[1]} *= {op[2]}"
+    if k == "iadd":
+        return f"{op[1]} += {op[2]}"
+    if k == "isub":
+        return f"{op[1]} -= {op[2]}"
     return f"del {op[1]}"
 
 
@@ -122,7 +163,7 @@ def dump_real(env):
         for f in names:
             for sp in SPELL.get(f, [f]):
                 try:
-                    cols.append(f"{sp}:" + ",".join(num(x) for x in numpy.asarray(arr[sp]).tolist()))
+                    cols.append(f"{sp}:" + ",".join(num(x) for x in numpy.asarray(arr[sp]).ravel().tolist()))
                 except ValueError:
                     pass
         known = {sp for f in names for sp in SPELL.get(f, [f])}
@@ -133,10 +174,18 @@ def dump_real(env):
                     cols.append(f"{sp}:UNEXPECTED")
                 except ValueError:
                     pass
-        parts.append(f"{name}={type(arr).__name__};{','.join(names)};" + "/".join(",".join(num(x) for x in rec) for rec in raw.tolist()) + ";" + " ".join(cols))
+        parts.append(f"{name}={type(arr).__name__};{','.join(names)};{shp(arr.shape)};"
+                     + "/".join(",".join(num(x) for x in rec) for rec in raw.ravel().tolist()) + ";" + " ".join(cols))
     live = sorted(env)
     pairs = [f"{p}~{q}" for i, p in enumerate(live) for q in live[i + 1:] if shares(env[p], env[q])]
     return " | ".join(parts) + " # " + " ".join(pairs)
+
+
+def make_real(fl, fields, shape, rows):
+    import vector
+    dt = [(n, numpy.float64) for n in real_names(fl, fields)]
+    arr = vector.array([tuple(float(x) for x in r) for r in rows], dtype=dt)
+    return arr if tuple(shape) == (len(rows),) else arr.reshape(tuple(shape))
 
 
 def exec_real(env, op):
@@ -144,12 +193,8 @@ def exec_real(env, op):
     k = op[0]
     try:
         if k == "new":
-            _, v, fl, sig, rows = op
-            if rows:
-                env[v] = C.np_array(fl, sig, rows)
-            else:
-                import vector
-                env[v] = vector.array({nm: numpy.zeros(0, dtype=numpy.float64) for nm in C.field_names(fl, sig)})
+            _, v, fl, fields, shape, rows = op
+            env[v] = make_real(fl, fields, shape, rows)
             return "ok"
         src = op[1]
         if src not in env:
@@ -169,13 +214,25 @@ def exec_real(env, op):
             env[op[2]] = copy.deepcopy(v)
         elif k == "pickle":
             env[op[2]] = pickle.loads(pickle.dumps(v))
+        elif k == "reshape":
+            env[op[2]] = v.reshape(tuple(op[3]))
+        elif k == "transpose":
+            env[op[2]] = v.T
+        elif k == "sub":
+            res = v[tuple(op[3]) + ((Ellipsis,) if op[4] else ())]
+            if not isinstance(res, numpy.ndarray):
+                return "err NOT-AN-ARRAY " + type(res).__name__
+            env[op[2]] = res
         elif k == "int":
-            e = v[op[2]]
+            e = v[tuple(op[2])]
+            if isinstance(e, numpy.ndarray):
+                return f"arr {type(e).__name__} {shp(e.shape)}"
             return f"elem {type(e).__name__} {','.join(C.signames(C.sig_of(e)))} {','.join(num(x) for x in C.stored(e))}"
         elif k == "get":
-            return "vals " + ",".join(num(x) for x in numpy.asarray(v[op[2]]).tolist())
+            return "vals " + ",".join(num(x) for x in numpy.asarray(v[op[2]]).ravel().tolist())
         elif k == "set":
-            v[op[2]] = numpy.array([float(x) for x in op[3]], dtype=numpy.float64)
+            rhs = numpy.array([float(x) for x in op[3]], dtype=numpy.float64)
+            v[op[2]] = rhs if len(op[3]) == 1 else rhs.reshape(v.shape)
         elif k == "setslice":
             lo, hi, s = op[2], op[3], op[4]
             v[lo:hi] = v[s:s + (hi - lo)]
@@ -183,6 +240,17 @@ def exec_real(env, op):
             if op[4] not in env:
                 return "err NameError"
             v[op[2]:op[3]] = env[op[4]][op[5]:op[6]]
+        elif k == "imul":
+            v *= op[2]                           # (rebinds the local `v` to what `__imul__` returns, as the statement does)
+            env[src] = v
+        elif k in ("iadd", "isub"):
+            if op[2] not in env:
+                return "err NameError"
+            if k == "iadd":
+                v += env[op[2]]
+            else:
+                v -= env[op[2]]
+            env[src] = v
         elif k == "del":
             del env[src]
         return "ok"
@@ -207,6 +275,22 @@ def lines_of(ops):
 
 
 # ------------------------------------------------------------------------------------------------ generation
+def shapes_of(n):
+    """shapes with up to three axes (length-one axes included) and `n` elements"""
+    out = [(n,), (n,), (1, n), (n, 1), (1, n, 1)]
+    for p in range(2, n):
+        if n % p == 0:
+            out += [(p, n // p), (p, n // p), (p, 1, n // p), (1, p, n // p)]
+            for q in range(2, n // p):
+                if (n // p) % q == 0:
+                    out.append((p, q, n // p // q))
+    return out
+
+
+def cart(arr):
+    return {f for f in arr.dtype.names if f in SPELL} <= CART
+
+
 class Gen:
     def __init__(self, r):
         self.r = r
@@ -217,13 +301,13 @@ class Gen:
         self.fresh += max(n, 1)
         return out
 
-    def new(self, v, types):
+    def new(self, v, types, flat=False):
         r = self.r
-        fl, sig = r.choice(types)
-        n = r.choice([0, 1, 2, 3, 3, 4, 4, 5, 5, 6])
-        k = len(sig) + 1
-        rows = [self.vals(k) for _ in range(n)]
-        return ("new", v, fl, sig, rows)
+        fl, fields = r.choice(types)
+        n = r.choice([0, 1, 2, 3, 4, 4, 5, 6, 6, 8, 8, 12])
+        shape = (n,) if flat or r.random() < 0.45 else r.choice(shapes_of(n))
+        rows = [self.vals(len(fields) + 1)[:len(fields)] for _ in range(n)]
+        return ("new", v, fl, fields, shape, rows)
 
     def bound(self, n):
         """a slice bound around 0..n, sometimes negative, sometimes None, sometimes far out"""
@@ -237,20 +321,35 @@ class Gen:
             return -r.randint(1, n + 1)
         return r.choice([n + 2, -n - 3])
 
+    def index(self, d, bad=False):
+        r = self.r
+        if bad or d == 0:
+            return r.choice([d, -d - 1, d + 1])
+        return r.randint(-d, d - 1)
+
     def op(self, env, types):
         """one operation, mostly valid for the real state `env`"""
         r = self.r
         live = sorted(env)
         if not live:
             return self.new(r.choice(VARS[:2]), types)
-        kinds = [k for k in KINDS if not (k == "del" and len(live) < 2)]
-        k = r.choices(kinds, weights=[WEIGHTS[x] for x in kinds])[0]
         bad = r.random() < 0.08
-        v = r.choices(live, weights=[len(env[q]) + 0.3 for q in live])[0] if not (bad and r.random() < 0.15) else r.choice(VARS)
+        v = r.choices(live, weights=[env[q].size + 0.3 for q in live])[0] if not (bad and r.random() < 0.15) else r.choice(VARS)
         w = r.choice(VARS)
-        n = len(env[v]) if v in env else 3
+        shape = env[v].shape if v in env else (3,)
+        size = env[v].size if v in env else 3
+        nd = len(shape)
+        n = shape[0] if nd else 0
         names = list(env[v].dtype.names) if v in env else ["x", "y"]
         mom = v in env and type(env[v]).__name__.startswith("Momentum")
+        kinds = [k for k in KINDS if not (k == "del" and len(live) < 2)]
+        if nd != 1:
+            kinds = [k for k in kinds if k not in ("mask", "fancy")]
+        if nd == 0 and not bad:
+            kinds = [k for k in kinds if k not in ("slice", "setslice", "setelems")]
+        if not (v in env and cart(env[v])):
+            kinds = [k for k in kinds if k not in ("imul", "iadd", "isub")]
+        k = r.choices(kinds, weights=[WEIGHTS[x] for x in kinds])[0]
         if k == "new":
             return self.new(w, types)
         if k == "slice":
@@ -265,16 +364,31 @@ class Gen:
             if lim == 0:
                 return ("fancy", v, w, [])
             return ("fancy", v, w, [r.randint(-lim, lim - 1) for _ in range(cnt)])
-        if k in ("view", "copy", "deepcopy", "pickle"):
+        if k in ("view", "copy", "deepcopy", "pickle", "transpose"):
             return (k, v, w)
+        if k == "reshape":
+            cands = shapes_of(size) + ([()] * 3 if size == 1 else [])
+            dims = r.choice(cands) if nd < 2 or r.random() < 0.6 else (size,)      # flattening a transposed / sliced n-d view must COPY
+            if bad:
+                dims = tuple(dims) + (2,)
+            return ("reshape", v, w, tuple(dims))
+        if k == "sub":
+            if nd == 0:
+                return ("sub", v, w, (), True) if not bad else ("sub", v, w, (0,), True)
+            cnt = r.randint(0, nd - 1) if r.random() < 0.6 else nd
+            idxs = tuple(self.index(shape[j], bad and j == cnt - 1) for j in range(cnt))
+            return ("sub", v, w, idxs, True if cnt == nd else r.random() < 0.5)
         if k == "int":
-            return ("int", v, r.randint(-n - 1, n) if bad or n == 0 else r.randint(-n, n - 1))
+            cnt = nd if r.random() < 0.75 else r.randint(0, nd)
+            if bad and r.random() < 0.3:
+                cnt = nd + 1
+            return ("int", v, tuple(self.index(shape[j] if j < nd else 1, bad and j == cnt - 1) for j in range(cnt)))
         if k in ("get", "set"):
             f = r.choice(names)
-            sp = r.choice(SPELL[f] if mom else [f]) if not bad else r.choice(ALLNAMES)
+            sp = r.choice(SPELL.get(f, [f]) if mom else [f]) if not bad else r.choice(ALLNAMES + EXTRAS)
             if k == "get":
                 return ("get", v, sp)
-            m = n if not bad else r.choice([n + 1, max(n - 1, 0), 1, 0])
+            m = size if not bad else r.choice([size + 1, max(size - 1, 0), 1, 0])
             if r.random() < 0.1:
                 m = 1
             return ("set", v, sp, self.vals(m))
@@ -286,8 +400,10 @@ class Gen:
             s = r.randint(0, n - ln)
             return ("setslice", v, lo, lo + ln, s)
         if k == "setelems":
-            u = r.choices(live, weights=[len(env[q]) + 0.3 for q in live])[0]
-            m = len(env[u])
+            same = [q for q in live if env[q].shape[1:] == shape[1:] and env[q].ndim]
+            pool = same if same and r.random() < 0.8 else live
+            u = r.choices(pool, weights=[env[q].size + 0.3 for q in pool])[0]
+            m = env[u].shape[0] if env[u].ndim else 0
             if bad or n == 0 or m == 0:
                 return ("setelems", v, self.bound(n), self.bound(n), u, self.bound(m), self.bound(m))
             ln = r.randint(1, min(n, m))
@@ -298,21 +414,44 @@ class Gen:
             s = r.randint(0, m - ln)
             return ("setelems", v, lo if lo or r.random() < 0.5 else None, lo + ln if lo + ln < n or r.random() < 0.5 else None,
                     u, s if s or r.random() < 0.5 else None, s + ln)
+        if k == "imul":
+            return ("imul", v, r.choice([-3, -2, -1, 2, 3]))
+        if k in ("iadd", "isub"):
+            def coords(q):
+                return {f for f in env[q].dtype.names if f in SPELL}
+            pool = [q for q in live if env[q].shape == shape and coords(q) == coords(v)]        # v itself qualifies
+            return (k, v, r.choice(pool))
         return ("del", v)
+
+
+def vtype(r):
+    """flavor + dtype field list: a coordinate system (Cartesian ones favoured: in-place arithmetic), in canonical or shuffled order,
+    with 0-2 extra fields anywhere"""
+    fl = r.choice("gm")
+    sig = r.choice(C.ALLSIGS) if r.random() < 0.6 else r.choice([("xy",), ("xy", "z"), ("xy", "z", "t")])
+    fields = list(C.signames(sig))
+    if r.random() < 0.5:
+        r.shuffle(fields)
+    c = r.random()
+    for e in EXTRAS[:0 if c < 0.6 else 1 if c < 0.85 else 2]:
+        fields.insert(r.randint(0, len(fields)), e)
+    return fl, fields
 
 
 def history(r, length):
     g = Gen(r)
-    fl, sig = r.choice("gm"), r.choice(C.ALLSIGS)
-    types = [(fl, sig)] * 5                                    # mostly one vector type per history …
+    fl, fields = vtype(r)
+    types = [(fl, fields)] * 5                                 # mostly one vector type per history …
     c = r.random()
-    if c < 0.25:                                               # … sometimes a second flavor / system / dimension (cross-type assignment)
-        types.append((r.choice("gm"), sig))
-    elif c < 0.45:
-        types.append((r.choice("gm"), r.choice(C.ALLSIGS)))
+    if c < 0.25:                                               # … sometimes the same coordinates in another flavor / field order / with other extras
+        fl2, f2 = r.choice("gm"), [f for f in fields if f in SPELL]
+        r.shuffle(f2)
+        types.append((fl2, f2 + EXTRAS[:r.choice([0, 0, 1])]))
+    elif c < 0.45:                                             # … or another system / dimension (cross-type assignment)
+        types.append(vtype(r))
     env, ops = {}, []
     first = g.new("a", types[:1])
-    while len(first[4]) < 3:
+    while len(first[5]) < 3:
         first = g.new("a", types[:1])
     ops.append(first)
     exec_real(env, first)
@@ -335,6 +474,19 @@ def first_mismatch(expected, got):
     return None
 
 
+def run_driver(lines):
+    alt = os.environ.get("VERIF_HEAP_DRIVER")                  # development: a stand-alone driver file instead of the package's
+    if alt:
+        import subprocess
+        p = subprocess.run(["lake", "env", "lean", "--run", alt], cwd=leanio.LEANDIR, input="\n".join(lines) + "\n", capture_output=True,
+                           text=True, timeout=900)
+        out = p.stdout.splitlines()
+        if p.returncode != 0 or len(out) != len(lines):
+            raise RuntimeError(f"driver {alt}: {len(lines)} requests, {len(out)} answers; " + p.stderr[-500:])
+        return out
+    return leanio.run_driver("Heap", lines, build=["VectorModel.Glue.Heap"])
+
+
 def check(histories):
     """[(index of the first mismatching line | None, expected, got)] for every history, ONE driver invocation"""
     lines, spans, exp = [], [], []
@@ -345,7 +497,7 @@ def check(histories):
         exp.append(replay_real(ops))
     if not lines:
         return []
-    got = leanio.run_driver("Heap", lines, build=["VectorModel.Glue.Heap"])
+    got = run_driver(lines)
     out = []
     for (lo, hi), e in zip(spans, exp):
         g = got[lo:hi]
@@ -381,12 +533,13 @@ def run(ctx):
     n_hist = 150 if ctx.tier == "quick" else 1500
     hists = [history(r, r.randint(6, 14)) for _ in range(n_hist)]
     stats = {"histories": n_hist, "steps": sum(len(h) for h in hists), "ops": {k: 0 for k in KINDS}, "op_errors": 0,
-             "max_live_variables": 0, "alias_pairs": 0, "writes_through_alias": 0, "lines_compared": 0}
+             "max_live_variables": 0, "alias_pairs": 0, "writes_through_alias": 0, "lines_compared": 0,
+             "arrays_nd": 0, "arrays_0d": 0, "dtypes_permuted": 0, "dtypes_with_extras": 0, "reshape_views": 0, "reshape_copies": 0}
     for h in hists:                                            # statistics from a replay of the real side
         env = {}
         for op in h:
             stats["ops"][op[0]] += 1
-            before = op[0] in ("set", "setslice", "setelems") and op[1] in env and \
+            before = op[0] in ("set", "setslice", "setelems", "imul", "iadd", "isub") and op[1] in env and \
                 sum(1 for q in env if q != op[1] and shares(env[q], env[op[1]]))
             ans = exec_real(env, op)
             stats["op_errors"] += ans.startswith("err")
@@ -394,6 +547,15 @@ def run(ctx):
             stats["max_live_variables"] = max(stats["max_live_variables"], len(env))
             live = sorted(env)
             stats["alias_pairs"] += sum(1 for i, p in enumerate(live) for q in live[i + 1:] if shares(env[p], env[q]))
+            if ans == "ok" and op[0] not in ("set", "setslice", "setelems", "del") and (op[2] if op[0] not in ("new", "imul", "iadd", "isub") else op[1]) in env:
+                arr = env[op[2] if op[0] not in ("new", "imul", "iadd", "isub") else op[1]]
+                stats["arrays_nd"] += arr.ndim > 1
+                stats["arrays_0d"] += arr.ndim == 0
+                coords = [f for f in arr.dtype.names if f in SPELL]
+                stats["dtypes_permuted"] += coords != [f for f in SPELL if f in coords]
+                stats["dtypes_with_extras"] += len(coords) != len(arr.dtype.names)
+                if op[0] == "reshape" and arr.size:
+                    stats["reshape_views" if shares(arr, env[op[1]]) or op[1] == op[2] else "reshape_copies"] += 1
     problems = []
     results = check(hists)
     stats["lines_compared"] = sum(len(e) for _, e, _ in results)
